@@ -124,6 +124,14 @@ Theorem roundtrip_duration_deepcopy_refuted :
 Proof. exact dur_deep_witness. Qed.
 Print Assumptions roundtrip_duration_deepcopy_refuted.
 
+(* the domain hypothesis is needed: Duration(years=300, days=3, microseconds=7) has weeks = 0, reports microseconds = 8
+   (C09's float resolution) and deep-copies to a Duration one microsecond longer *)
+Theorem roundtrip_duration_deepcopy_outside_D9_refuted :
+  exists d d', duration_new 3 0 7 0 0 0 0 300 0 = Ok d /\ d_weeks d = 0 /\ d_micro d = 8 /\ dur_rebuild RDeep d = Ok d'
+    /\ d_N d' = d_N d + 1 /\ dur_public d' <> dur_public d.
+Proof. exact dur_deep_outside_witness. Qed.
+Print Assumptions roundtrip_duration_deepcopy_outside_D9_refuted.
+
 (* AbsoluteDuration: pickle / copy.copy keep everything except years / months (which come back 0) *)
 Theorem absolute_duration_pickle_copy_result : forall r days seconds us ms mi h w years months d d', not_deep r ->
   absolute_duration_new days seconds us ms mi h w years months = Ok d -> dur_rebuild r d = Ok d' ->
